@@ -125,6 +125,9 @@ func editSpace(thorough bool) space {
 var hostilePrelude = map[string]string{
 	"h_cyc":     "h_cyc := [1]\nh_cyc.append(h_cyc)",
 	"h_mcyc":    "h_mcyc := {\"a\": 1}\nh_mcyc[\"self\"] = h_mcyc",
+	"h_cyc2":    "h_cyc2 := [1]\nh_cyc2.append(h_cyc2)\nh_cyc2.append(h_cyc2)",
+	"h_mcyc2":   "h_mcyc2 := {}\nh_mcyc2[\"a\"] = h_mcyc2\nh_mcyc2[\"b\"] = h_mcyc2",
+	"h_itcyc":   "h_itcyc := []\nh_itcyc.append(iter(h_itcyc))\nh_itcyc.append(iter(h_itcyc))",
 	"h_lm":      "h_lm := [0]\nh_lmm := {\"l\": h_lm}\nh_lm.append(h_lmm)",
 	"h_deep":    "h_deep := []\nfor i := range 3000 { h_deep = [h_deep] }",
 	"h_max":     "h_max := 9223372036854775807",
@@ -609,8 +612,10 @@ func Check(r *ev.Run, replay string) {
 							mu.Unlock()
 							r.Add("memory_exhausted_by_data_size_exempt", 1)
 						} else {
-							if cls == "fatal-stack-overflow" && (strings.Contains(src, "h_cyc") || strings.Contains(src, "h_mcyc") || strings.Contains(src, "h_lm") || strings.Contains(src, "h_deep")) {
-								cls += ":cyclic-container"
+							if cls == "fatal-stack-overflow" && (strings.Contains(src, "h_cyc") || strings.Contains(src, "h_mcyc") || strings.Contains(src, "h_lm") || strings.Contains(src, "h_deep") || strings.Contains(src, "h_itcyc")) {
+								// which method recurses tells the known ways (Equals, Compare, Interface, MarshalJSON
+								// have no guard against cycles) from a new one (Inspect has a guard)
+								cls += ":cyclic-container:" + firstRisorMethod(stderr)
 							} else if fn := firstRisorFrame(stderr); fn != "" {
 								cls += ":" + fn
 							}
@@ -644,6 +649,15 @@ func firstRisorFrame(stderr string) string {
 		return ""
 	}
 	return m[1] + "." + strings.Trim(m[2], "()*.") + "." + m[3]
+}
+
+// firstRisorMethod is the bare name of the first risor function in the stack dump.
+func firstRisorMethod(stderr string) string {
+	m := frameRe.FindStringSubmatch(stderr)
+	if m == nil {
+		return "unknown"
+	}
+	return m[3]
 }
 
 func clipSrc(s string) string {
